@@ -47,6 +47,19 @@ def suite(wt):
     return passed
 
 
+def save(meta_p, meta, keys):
+    '''write only what this invocation established: another invocation (a
+    confirmation running beside an evaluation) may have written meanwhile'''
+    cur = json.load(open(meta_p)) if os.path.exists(meta_p) else {}
+    for k in keys:
+        if k in meta:
+            if k == 'checks':
+                cur.setdefault('checks', {}).update(meta['checks'])
+            else:
+                cur[k] = meta[k]
+    json.dump(cur, open(meta_p, 'w'), indent=1)
+
+
 def main():
     ap = argparse.ArgumentParser()
     ap.add_argument('name')
@@ -123,7 +136,7 @@ def main():
                 print('patch does not apply:', out)
                 return 2
         if a.confirm_only:
-            json.dump(meta, open(meta_p, 'w'), indent=1)
+            save(meta_p, meta, ('ran', 'repo_head', 'property'))
             return 0
         # scratch copy of the framework
         # SEED_VERIF_SRC: a clean built checkout of /verif's HEAD (so that
@@ -156,7 +169,7 @@ def main():
             print('check %s exit=%s caught=%s %ds %s' % (
                 c, rc, res[c]['caught'], res[c]['wall_s'],
                 (viol or ['-'])[0][:160]))
-        json.dump(meta, open(meta_p, 'w'), indent=1)
+        save(meta_p, meta, ('checks', 'repo_head', 'property') + (() if a.skip_confirm else ('ran',)))
     finally:
         sh('git -C /repo worktree remove --force %s' % wt)
         shutil.rmtree(wt, ignore_errors=True)
